@@ -18,6 +18,7 @@ import PetgraphModel.Proofs.C09W4Space
 import PetgraphModel.Proofs.C09W4Complete
 import PetgraphModel.Proofs.C09W4Abstract
 import PetgraphModel.Proofs.C09W4Checks
+import PetgraphModel.Proofs.C09W6Adapt
 /-
 C09 — SCC, connectivity, cycle detection, toposort and condensation are exact.
 
@@ -925,5 +926,188 @@ example : eoOkB exV [0, 1, 2, 3, 4, 5, 6] = true ∧ compactB exV = true ∧ nod
 example : erOkB exG [(1, 0), (0, 1), (2, 1), (2, 3), (3, 2), (4, 4), (1, 2)] = true ∧
     erOkB exG [(1, 0), (0, 1), (2, 1), (2, 3), (3, 2), (4, 4)] = false ∧
     erSetOkB exG [(1, 0), (2, 1), (2, 3), (4, 4)] = true := by decide +kernel
+
+/-! ## Part 7 (wave 6) — corners: graph adaptors, ids that are not nodes, a `TarjanScc` used on other graphs
+
+The C09 functions are generic; "all graph types satisfying the bounds" includes the adaptors of
+`petgraph::visit`.  The driver judges an adaptor case against the abstract graph the adaptor is documented
+to present (`Oracle/C09Adapt.lean`: `applyAd`), recomputed from the base graph by `adaptOkB`. -/
+
+/-- **run-time check of an adaptor case**: an accepted `graph` line of an adaptor case carries the graph
+the adaptor chain presents over the base — the same direction flag, the same edge list, the same nodes. -/
+theorem C09_adapt_check (base g : MGraph) (ads : List Ad) (h : adaptOkB base ads g = true) :
+    (applyAds base ads).directed = g.directed ∧ (applyAds base ads).edges = g.edges ∧
+      ∀ x, x ∈ (applyAds base ads).nodes ↔ x ∈ g.nodes :=
+  let s := C09P.adaptOkB_sound h
+  ⟨s.directed, s.edges, s.nodes⟩
+
+/-- **every clause means the same on two graphs of the same shape** (direction flag, edge list, node set):
+so judging against the line's graph is judging against the adaptor's graph. -/
+theorem C09_same_shape (g g' : MGraph) (hd : g.directed = g'.directed) (he : g.edges = g'.edges)
+    (hn : ∀ x, x ∈ g.nodes ↔ x ∈ g'.nodes) :
+    (∀ a b, Reach g a b ↔ Reach g' a b) ∧ (∀ comps, SccSpec g comps ↔ SccSpec g' comps) ∧
+    (∀ k, IsWccCount g k ↔ IsWccCount g' k) ∧ (CyclicD g ↔ CyclicD g') ∧ (CyclicU g ↔ CyclicU g') ∧
+    (∀ s, TwoCol g s ↔ TwoCol g' s) ∧ (∀ ord, TopoOrder g ord ↔ TopoOrder g' ord) := by
+  have s : C09P.SameShape g g' := ⟨hd, he, hn⟩
+  have a := s.adjEq
+  exact ⟨C09P.adjEq_reach a, C09P.adjEq_scc a, C09P.adjEq_wcc a, C09P.adjEq_cyclicD a, C09P.sameShape_cyclicU s,
+    C09P.adjEq_twoCol a, C09P.adjEq_topo a⟩
+
+/-- **every clause that does not count edges depends on the nodes and the adjacency relation only.** -/
+theorem C09_adj_congr (g g' : MGraph) (hn : ∀ x, x ∈ g.nodes ↔ x ∈ g'.nodes) (ha : ∀ a b, g.Adj a b ↔ g'.Adj a b) :
+    (∀ a b, Reach g a b ↔ Reach g' a b) ∧ (∀ comps, SccSpec g comps ↔ SccSpec g' comps) ∧
+    (∀ k, IsWccCount g k ↔ IsWccCount g' k) ∧ (CyclicD g ↔ CyclicD g') ∧
+    (∀ s, TwoCol g s ↔ TwoCol g' s) ∧ (∀ ord, TopoOrder g ord ↔ TopoOrder g' ord) := by
+  have a : C09P.AdjEq g g' := ⟨hn, ha⟩
+  exact ⟨C09P.adjEq_reach a, C09P.adjEq_scc a, C09P.adjEq_wcc a, C09P.adjEq_cyclicD a, C09P.adjEq_twoCol a,
+    C09P.adjEq_topo a⟩
+
+/-- full strength would be "`CyclicU` depends on the adjacency only" — false: a doubled edge is a cycle of
+the multigraph ("parallel edges count as cycles"), so the doubled listing of `UndirectedAdaptor::neighbors`
+is not what `is_cyclic_undirected` may be judged against (the driver judges it against `g.undirect`, the
+`unde` line). -/
+theorem C09_cyclicU_not_adj_congr_witness :
+    ∃ g g' : MGraph, (∀ x, x ∈ g.nodes ↔ x ∈ g'.nodes) ∧ (∀ a b, g.Adj a b ↔ g'.Adj a b) ∧
+      CyclicU g ∧ ¬ CyclicU g' := by
+  refine ⟨undAdaptor ⟨false, [0, 1], [⟨0, 0, 1, 1⟩]⟩, (⟨false, [0, 1], [⟨0, 0, 1, 1⟩]⟩ : MGraph).undirect,
+    (C09P.undAdaptor_adjEq _).nodes, (C09P.undAdaptor_adjEq _).adj, ?_, ?_⟩
+  · exact C09P.cycUYes_sound (by decide +kernel)
+  · exact C09P.cycUNo_sound (by decide +kernel)
+
+/-- **`Reversed(g)`**: adjacency and reachability turned around, the same classes of mutual reachability,
+and an answer is a correct SCC answer for `Reversed(g)` exactly when, read backwards, it is one for `g`
+(the components of `g` in topological instead of reverse topological order). -/
+theorem C09_adaptor_reversed (g : MGraph) :
+    (∀ a b, g.reverse.Adj a b ↔ g.Adj b a) ∧ (∀ a b, Reach g.reverse a b ↔ Reach g b a) ∧
+    (∀ comps, SccSpec g.reverse comps ↔ SccSpec g comps.reverse) :=
+  ⟨fun _ _ => C09P.adj_reverse, fun _ _ => C09P.reach_reverse, C09P.sccSpec_reverse g⟩
+
+/-- **`EdgeFiltered(g, weight ≥ thr)`** presents the kept edges: adjacent exactly along a kept edge. -/
+theorem C09_adaptor_edge_filtered (g : MGraph) (thr : Int) (a b : Nat) :
+    (filterEdges g thr).Adj a b ↔
+      ∃ e ∈ g.edges, thr ≤ e.w ∧ ((e.src = a ∧ e.tgt = b) ∨ (g.directed = false ∧ e.src = b ∧ e.tgt = a)) :=
+  C09P.adj_filterEdges g thr a b
+
+/-- **`NodeFiltered(g, keep)`** presents the induced subgraph: the kept nodes, adjacent exactly when adjacent
+in `g`; a walk of the view is a walk of `g` all of whose nodes are kept. -/
+theorem C09_adaptor_node_filtered (g : MGraph) (keep : List Nat) :
+    (∀ x, x ∈ (induced g keep).nodes ↔ x ∈ g.nodes ∧ x ∈ keep) ∧
+    (∀ a b, (induced g keep).Adj a b ↔ g.Adj a b ∧ a ∈ keep ∧ b ∈ keep) ∧
+    (∀ a b, Reach (induced g keep) a b → Reach g a b ∧ (a ≠ b → a ∈ keep ∧ b ∈ keep)) :=
+  ⟨C09P.mem_induced_nodes g keep, C09P.adj_induced g keep, fun _ _ => C09P.reach_induced_sub⟩
+
+/-- **`UndirectedAdaptor(g)`**: what its `neighbors` list (incoming chained with outgoing: every self-loop
+of a directed base twice, every edge of an undirected base twice) has the nodes and the adjacency of `g`
+with direction ignored, so every clause that does not count edges is the clause for `g.undirect`. -/
+theorem C09_adaptor_undirected (g : MGraph) :
+    (∀ a b, (undAdaptor g).Adj a b ↔ g.Adj a b ∨ g.Adj b a) ∧
+    (∀ a b, Reach (undAdaptor g) a b ↔ Reach g.undirect a b) ∧
+    (∀ comps, SccSpec (undAdaptor g) comps ↔ SccSpec g.undirect comps) ∧
+    (∀ k, IsWccCount (undAdaptor g) k ↔ IsWccCount g.undirect k) ∧
+    (CyclicD (undAdaptor g) ↔ CyclicD g.undirect) ∧
+    (∀ s, TwoCol (undAdaptor g) s ↔ TwoCol g.undirect s) := by
+  have a := C09P.undAdaptor_adjEq g
+  exact ⟨fun x y => (a.adj x y).trans (C09P.adj_undirect g x y), C09P.adjEq_reach a, C09P.adjEq_scc a,
+    C09P.adjEq_wcc a, C09P.adjEq_cyclicD a, C09P.adjEq_twoCol a⟩
+
+/-- **every function on every checked adaptor case**: the mirror model answers and its answer satisfies the
+property's clause FOR THE GRAPH THE ADAPTOR CHAIN PRESENTS over the base — no hypothesis but the two
+run-time checks (`caseOkB` on the view, `adaptOkB` on the chain). -/
+theorem C09_checked_adaptor (v : View) (base : MGraph) (ads : List Ad) (h : C09.caseOkB v = true)
+    (ha : adaptOkB base ads v.g = true) :
+    (∃ comps, kosaraju v = some comps ∧ SccSpec (applyAds base ads) comps) ∧
+    (∃ t1, tjRun v {} = some t1 ∧ SccSpec (applyAds base ads) t1.out) ∧
+    (∀ a b, nodeB v.g a = true → ∃ r, hasPath v a b = some r ∧ (r = true ↔ Reach (applyAds base ads) a b)) ∧
+    (∃ b, cyclicDirected v = some b ∧ (b = true ↔ CyclicD (applyAds base ads))) ∧
+    (∀ s, nodeB v.g s = true → ∃ b, bipartite v s = .answer b ∧ (b = true ↔ TwoCol (applyAds base ads) s)) ∧
+    ((∃ ord, toposort v = some (.ok ord)) ↔ ¬ CyclicD (applyAds base ads)) ∧
+    (∀ ord, toposort v = some (.ok ord) → TopoOrder (applyAds base ads) ord) ∧
+    (∀ x, toposort v = some (.cycle x) → Reach1 (applyAds base ads) x x) := by
+  have a := (C09P.adaptOkB_sound ha).adjEq
+  obtain ⟨⟨c, hk, hs⟩, ⟨t1, _, h1, _, ⟨hs1, _⟩, _⟩, hp, ⟨b, hb, hcd⟩, hbip, ⟨htopo, hacy, hcyc⟩, _⟩ := C09_checked_case v h
+  refine ⟨⟨c, hk, (C09P.adjEq_scc a c).mpr hs⟩, ⟨t1, h1, (C09P.adjEq_scc a _).mpr hs1⟩, ?_,
+    ⟨b, hb, hcd.trans (C09P.adjEq_cyclicD a).symm⟩, ?_, htopo.trans (not_congr (C09P.adjEq_cyclicD a).symm), ?_, ?_⟩
+  · intro x y hx
+    obtain ⟨r, hr, hrr⟩ := hp x y hx
+    exact ⟨r, hr, hrr.trans (C09P.adjEq_reach a x y).symm⟩
+  · intro s hs
+    obtain ⟨b, hb, hbb⟩ := hbip s hs
+    exact ⟨b, hb, hbb.trans (C09P.adjEq_twoCol a s).symm⟩
+  · intro ord ho
+    by_cases hc : CyclicD v.g
+    · obtain ⟨x, hx, _⟩ := hcyc hc
+      rw [ho] at hx; cases hx
+    · obtain ⟨ord', ho', ht⟩ := hacy hc
+      rw [ho] at ho'
+      cases ho'
+      exact (C09P.adjEq_topo a ord).mpr ht
+  · intro x hx
+    by_cases hc : CyclicD v.g
+    · obtain ⟨x', hx', hr⟩ := hcyc hc
+      rw [hx] at hx'
+      cases hx'
+      exact (C09P.adjEq_reach1 a x x).mpr hr
+    · obtain ⟨ord', ho', _⟩ := hacy hc
+      rw [hx] at ho'; cases ho'
+
+/-- **ids that are not nodes** (a vacancy of a `StableGraph`, an absent `GraphMap` node — documented to have
+no neighbours): on a checked case `has_path_connecting(a, b)` with such an `a` or `b` answers `a == b`, and
+that is reachability in the graph: the id reaches itself only and only itself reaches it. -/
+theorem C09_checked_stale (v : View) (h : C09.caseOkB v = true) (a b : Nat)
+    (hs : nodeB v.g a = false ∨ nodeB v.g b = false) :
+    hasPath v a b = some (decide (a = b)) ∧ (Reach v.g a b ↔ a = b) := by
+  obtain ⟨hv, _, hb, _, hwf, _, _⟩ := (C09_case_check v).2 h
+  have hout := C09P.houtB_sound (by
+    have : C09.caseOkB v = true := h
+    simp only [C09.caseOkB, Bool.and_eq_true] at this
+    exact this.1.1.2)
+  by_cases ha : a ∈ v.g.nodes
+  · have hbn : b ∉ v.g.nodes := by
+      rcases hs with hs | hs
+      · exact absurd ha (by simpa [nodeB] using hs)
+      · simpa [nodeB] using hs
+    have hne : a ≠ b := fun e => hbn (e ▸ ha)
+    have hreach := C09P.reach_stale_right hwf (a := a) hbn
+    obtain ⟨r, hr, hrr⟩ := C09_has_path_total v hv hwf hb a b ha
+    refine ⟨?_, hreach⟩
+    rw [hr]
+    cases r with
+    | false => simp [hne]
+    | true => exact absurd (hreach.mp (hrr.mp rfl)) hne
+  · exact ⟨C09P.hasPath_stale_left v a b (hout a ha).1, C09P.reach_stale_left hwf ha⟩
+
+/-- **a `TarjanScc` that was used on ANOTHER graph before** (`tarjan-foreign`, `tarjan-after-mutation`):
+`run` clears the per-node table and keeps `index` / `componentcount`; from any clean value with room for both
+graphs, the run on the first graph and then the run on the second graph are both exact, with consistent
+`node_component_index`, and the value is clean again (so any number of graphs in a row). -/
+theorem C09_tarjan_across (v1 v2 : View) (hv1 : ViewOk v1) (hix1 : IxOk v1) (hwf1 : v1.g.WellFormed)
+    (hv2 : ViewOk v2) (hix2 : IxOk v2) (hwf2 : v2.g.WellFormed) (t t1 t2 : TJ)
+    (hst : t.stack = []) (hB : t.index + v1.g.nodes.length + v2.g.nodes.length ≤ t.cc) (hcc : t.cc ≤ usizeMax)
+    (h1 : tjRun v1 t = some t1) (h2 : tjRun v2 t1 = some t2) :
+    (SccSpec v1.g t1.out ∧ IndexSpec t1.out (v1.g.nodes.map fun x => (x, tjIndex v1 t1 x))) ∧
+    (SccSpec v2.g t2.out ∧ IndexSpec t2.out (v2.g.nodes.map fun x => (x, tjIndex v2 t2 x))) ∧
+    t2.stack = [] ∧ t2.index = t.index ∧ t2.cc + t1.out.length + t2.out.length = t.cc := by
+  obtain ⟨s1, i1, st1, ix1, cc1, l1⟩ := C09_tarjan_run v1 hv1 hix1 hwf1 t t1 hst (by omega) hcc h1
+  obtain ⟨s2, i2, st2, ix2, cc2, _⟩ := C09_tarjan_run v2 hv2 hix2 hwf2 t1 t2 st1 (by omega) (by omega) h2
+  exact ⟨⟨s1, i1⟩, ⟨s2, i2⟩, st2, by omega, by omega⟩
+
+/-- run-time check of `C09_tarjan_across` for a new value (`law tarjan-foreign <m>` lines): both node counts
+together leave room below `usize::MAX` -/
+theorem C09_across_check (m : Nat) (v : View) (h : acrossB m v = true) :
+    ({} : TJ).index + m + v.g.nodes.length ≤ ({} : TJ).cc := by
+  simpa [acrossB] using h
+
+/-! non-vacuity of Part 7 -/
+example : adaptOkB exG [.rev, .ef 1] (filterEdges exG.reverse 1) = true := by decide +kernel
+example : adaptOkB exG [.nf [1, 2, 3]] ⟨true, [3, 1, 2], [⟨2, 1, 2, 0⟩, ⟨3, 2, 3, 1⟩, ⟨4, 3, 2, 1⟩, ⟨6, 1, 2, 5⟩]⟩ = true := by decide +kernel
+example : adaptOkB exG [.nf [1, 2, 3]] exG = false := by decide +kernel
+example : C09.caseOkB exV = true ∧ adaptOkB exG.reverse [.rev, .frz] exV.g = true := by decide +kernel
+example : (undAdaptor exG).edges.length = 8 ∧ (undAdaptor exU).edges.length = 6 := by decide +kernel
+example : sccOkB exG.reverse [[4], [1, 0], [2, 3]] = true ∧ sccOkB exG [[2, 3], [1, 0], [4]] = true := by decide +kernel
+example : nodeB exV.g 7 = false ∧ hasPath exV 7 7 = some true ∧ hasPath exV 7 0 = some false ∧
+    hasPath exV 0 7 = some false := by decide +kernel
+example : ((tjRun exV {}).bind (tjRun (rev exV))).map (fun t => (t.out, t.index, t.stack)) =
+    some ([[1, 0], [3, 2], [4]], 1, []) := by decide +kernel
+example : acrossB 40 exV = true := by decide +kernel
 
 end PetgraphModel.C09T
